@@ -337,6 +337,74 @@ def negate_aware_ifexp(e: ast.AST):
     return t, a, b
 
 
+def deep_defs(ctx, f: FuncInfo, e: ast.AST, depth: int = 2) -> list[tuple[FuncInfo, ast.AST]]:
+    """(function, expression) pairs e is computed from: e, the definitions of the locals it mentions (transitively) and - through calls of
+    private helpers of the same class / module - the values those helpers return (parameters substituted by the caller's arguments)
+    together with *their* local definitions. 'Extract function' tolerant def-use closure."""
+    from .. import flow as _flow
+
+    out: list[tuple[FuncInfo, ast.AST]] = []
+    helpers = {h.qualname for h in helper_callees(ctx, f, depth)} if depth > 0 else set()
+    for x in expand_locals(f, e):
+        out.append((f, x))
+        if depth <= 0:
+            continue
+        for c in ast.walk(x):
+            if isinstance(c, ast.Call):
+                for cal in ctx.res.callees(f, c, record=False):
+                    if cal.qualname in helpers and not isinstance(cal.node, ast.Lambda):
+                        sub = _flow._substituted(cal, c)
+                        for r in own_returns(sub):
+                            if r.value is not None:
+                                out.extend(deep_defs(ctx, sub, r.value, depth - 1))
+    return out
+
+
+def call_as_expr(ctx, f: FuncInfo, e: ast.AST | None, depth: int = 2) -> ast.AST | None:
+    """If e is a call of a small pure helper (one resolvable callee whose body is a chain of `if T: return A` ending in `return B`), the
+    equivalent conditional expression in the caller's terms (parameters substituted); otherwise e itself. 'Extract function' tolerant."""
+    from .. import flow as _flow
+
+    if not isinstance(e, ast.Call) or depth <= 0:
+        return e
+    cals = ctx.res.callees(f, e, record=False)
+    if len(cals) != 1 or cals[0].is_async:
+        return e
+    def conv(stmts):
+        if not stmts:
+            return None
+        st = stmts[0]
+        if isinstance(st, ast.Return):
+            return st.value if st.value is not None else ast.Constant(value=None)
+        if isinstance(st, ast.If):
+            a = conv(st.body)
+            b = conv(st.orelse) if st.orelse else conv(stmts[1:])
+            if a is None or b is None:
+                return None
+            return ast.IfExp(test=st.test, body=a, orelse=b)
+        return None
+
+    def body_of(fi):
+        return [st for st in fi.node.body if not (isinstance(st, ast.Expr) and isinstance(st.value, ast.Constant))]
+
+    raw = conv(body_of(cals[0]))
+    if raw is None:
+        return e
+    # every parameter the expression reads must be bound to a simple argument (the result has to read in the caller's terms)
+    params = [p_.arg for p_ in cals[0].params()]
+    if cals[0].cls is not None and "staticmethod" not in cals[0].decorators and params and isinstance(e.func, ast.Attribute):
+        params = params[1:]
+    bound = {params[i] for i, a in enumerate(e.args) if i < len(params) and isinstance(a, (ast.Name, ast.Attribute, ast.Constant))}
+    bound |= {k.arg for k in e.keywords if k.arg is not None and isinstance(k.value, (ast.Name, ast.Attribute, ast.Constant))}
+    used = {x.id for x in ast.walk(raw) if isinstance(x, ast.Name) and x.id in params}
+    if not used <= bound:
+        return e
+    out = conv(body_of(_flow._substituted(cals[0], e)))
+    if out is None:
+        return e
+    return ast.fix_missing_locations(ast.copy_location(out, e))
+
+
 def multi_defs(f: FuncInfo, name: str) -> list[ast.expr]:
     return local_defs(f, name)
 
@@ -386,6 +454,43 @@ def fstring_templates(f: FuncInfo, e: ast.AST, depth: int = 3) -> set[str]:
             res = {a + b for a in res for b in p}
         return res
     return {"{}"}
+
+
+def text_template(f: FuncInfo, e: ast.AST | None, depth: int = 3) -> str | None:
+    """The text e evaluates to, with `{expr}` for every non-constant hole: f-strings, str constants, `+` concatenation, implicit joins
+    (`sep.join([piece, ...])` with a literal list, possibly held in a single-definition local). None if e is not of that shape."""
+    if e is None:
+        return None
+    if isinstance(e, ast.Constant) and isinstance(e.value, str):
+        return e.value.replace("{", "{{").replace("}", "}}")
+    if isinstance(e, ast.JoinedStr):
+        out = ""
+        for v in e.values:
+            if isinstance(v, ast.Constant):
+                out += str(v.value).replace("{", "{{").replace("}", "}}")
+            else:
+                out += "{" + unparse(v.value) + "}"
+        return out
+    if isinstance(e, ast.BinOp) and isinstance(e.op, ast.Add):
+        a, b = text_template(f, e.left, depth), text_template(f, e.right, depth)
+        return a + b if a is not None and b is not None else None
+    if isinstance(e, ast.Call) and isinstance(e.func, ast.Attribute) and e.func.attr == "join" and len(e.args) == 1:
+        sep = text_template(f, e.func.value, depth)
+        seq = e.args[0]
+        if isinstance(seq, ast.Name) and depth > 0:
+            defs = local_defs(f, seq.id)
+            seq = defs[0] if len(defs) == 1 else seq
+        if sep is None or not isinstance(seq, (ast.List, ast.Tuple)):
+            return None
+        parts = [text_template(f, x, depth) for x in seq.elts]
+        return sep.join(parts) if all(p_ is not None for p_ in parts) else None
+    if isinstance(e, ast.Name):
+        if depth > 0:
+            defs = local_defs(f, e.id)
+            if len(defs) == 1 and isinstance(defs[0], (ast.JoinedStr, ast.BinOp)) or (len(defs) == 1 and isinstance(defs[0], ast.Call) and isinstance(defs[0].func, ast.Attribute) and defs[0].func.attr == "join"):
+                return text_template(f, defs[0], depth - 1)
+        return "{" + e.id + "}"
+    return "{" + unparse(e) + "}"
 
 
 def collection_build(f: FuncInfo, name: str):
